@@ -360,9 +360,10 @@ impl TypeChecker {
                         }
                     }
 
-                    // NOTE(ed): Is this going to haunt me later?
-                    // Gives better errors for recursive types - which are illegal.
-                    Type::Unknown => {}
+                    // A declaration that is not known yet - a type that mentions itself. The
+                    // mention is the declaration itself, not a copy of the still empty type:
+                    // a copy would never learn what the declaration turns out to be.
+                    Type::Unknown => return Ok(self.variables[*var].ty),
 
                     _ => {
                         return err_type_error!(
